@@ -209,7 +209,7 @@ func genResetDoc(ctx *core.Ctx, selfMerge bool) resetArgs {
 		return idx
 	}
 	// root: a mapping
-	a.Root = build(4, false)
+	a.Root = build(4+ctx.Rng.Intn(2), false)
 	return a
 }
 
@@ -243,6 +243,9 @@ func c01ResetStream(ctx *core.Ctx) {
 	ctx.Count("model-reset-witness")
 	ctx.Add("c01reset", resetArgs{Nodes: []rNode{{K: "map", Entries: [][]any{{"a", 1}}}, {K: "map", Entries: [][]any{{"k", 2}, {"<<", 3}}}, {K: "scalar"}, {K: "alias", T: 1}}, Root: 0, Anchor: []int{1}})
 	ctx.Add("c01reset", resetArgs{Nodes: []rNode{{K: "map", Entries: [][]any{{"a", 1}}}, {K: "map", Entries: [][]any{{"k", 2}}}, {K: "alias", T: 1}}, Root: 0, Anchor: []int{1}})
+	// a plain self reference five levels down: {a: {b: {c: {d: &x {k: *x}}}}}
+	ctx.Add("c01reset", resetArgs{Nodes: []rNode{{K: "map", Entries: [][]any{{"a", 1}}}, {K: "map", Entries: [][]any{{"b", 2}}}, {K: "map", Entries: [][]any{{"c", 3}}},
+		{K: "map", Entries: [][]any{{"d", 4}}}, {K: "map", Entries: [][]any{{"k", 5}}}, {K: "alias", T: 4}}, Root: 0, Anchor: []int{4}})
 	loops := 0
 	for i := 0; i < ctx.Pick(3000, 80000); i++ {
 		a := genResetDoc(ctx, false)
